@@ -124,6 +124,25 @@ def run(repo, res):
                           'by identity of the evaluated receiver, a fresh object per evaluation loses every instance '
                           'attribute' % unparse(c.func), sample='%s(...) inside memoised %s' % (unparse(c.func), fi.qual if fi else '?'))
     res.count('object_constructors', nctor, floor=2)
+    # ... and that memo must never forget: a bounded table (functools.lru_cache with its default or any finite maxsize) evicts entries,
+    # and the next evaluation builds a second object for the same class or instance
+    for rel, tree in repo.trees.items():
+        for c in ast.walk(tree):
+            bounded = None
+            if isinstance(c, ast.Call) and unparse(c.func).split('.')[-1] == 'lru_cache':
+                ms = [k.value for k in c.keywords if k.arg == 'maxsize'] + list(c.args[:1])
+                if not ms or not (isinstance(ms[0], ast.Constant) and ms[0].value is None):
+                    if not (c.args and isinstance(c.args[0], (ast.Name, ast.Lambda)) and not c.keywords):
+                        bounded = unparse(c)
+            elif isinstance(c, (ast.FunctionDef, ast.AsyncFunctionDef)):
+                for d in c.decorator_list:
+                    if unparse(d).split('.')[-1] == 'lru_cache':
+                        bounded = '@' + unparse(d)
+            if bounded:
+                res.check('C06-R4', 'memo %s in %s never forgets' % (bounded, rel), False, rel, c.lineno,
+                          '%s keeps at most a fixed number of results (128 by default): once an entry is evicted the next evaluation builds '
+                          'a new ClassObject / InstanceValue for the same class, and the instance attributes recorded under the first '
+                          'object (SourceScope.assigns groups by identity) are not found any more' % bounded)
     # (what the first parameter of a method evaluates to is decided by the first-parameter scenarios of the descriptor model, below)
     # parameter indices (E1): the i-th positional parameter (positional-only ones first) carries idx [i]; get_argument
     # recognises the instance parameter by idx == [0]
